@@ -104,7 +104,7 @@ def d_anneal(minimize, neg, cfg):
         return x + (-1, 1)[e2.current().choose(2, "neighbor")]
 
     with Patched("anneal"):
-        res = m.anneal(0, f, nb, minimize=minimize, temperature=1.0, cooling=cool, max_iter=cfg["max_iter"], seed=1, **stopper(cfg.get("stop")))
+        res = m.anneal(cfg.get("start", 0), f, nb, minimize=minimize, temperature=1.0, cooling=cool, max_iter=cfg["max_iter"], seed=1, **stopper(cfg.get("stop")))
     return res, f, None
 
 
@@ -120,7 +120,7 @@ def d_tabu(minimize, neg, cfg):
         return out
 
     with Patched("tabu"):
-        res = m.tabu_search(0, f, nbs, minimize=minimize, cooldown=cfg["cooldown"], max_iter=cfg["max_iter"], seed=1, **stopper(cfg.get("stop")))
+        res = m.tabu_search(cfg.get("start", 0), f, nbs, minimize=minimize, cooldown=cfg["cooldown"], max_iter=cfg["max_iter"], seed=1, **stopper(cfg.get("stop")))
     return res, f, None
 
 
@@ -135,7 +135,7 @@ def d_lns(minimize, neg, cfg):
         return (0, 1, 2)[e2.current().choose(3, "repair")]
 
     with Patched("lns"):
-        res = m.lns(0, f, destroy, repair, minimize=minimize, accept=cfg["accept"], start_temp=1.0, cooling_rate=cfg.get("cooling_rate", 0.9995), max_iter=cfg["max_iter"], seed=1, **stopper(cfg.get("stop")))
+        res = m.lns(cfg.get("start", 0), f, destroy, repair, minimize=minimize, accept=cfg["accept"], start_temp=1.0, cooling_rate=cfg.get("cooling_rate", 0.9995), max_iter=cfg["max_iter"], seed=1, **stopper(cfg.get("stop")))
     return res, f, None
 
 
@@ -145,7 +145,7 @@ def d_alns(minimize, neg, cfg):
     d_ops = [lambda s, r: ("a", s), lambda s, r: ("b", s)]
     r_ops = [lambda p, r: (p[1] + 1) % 3, lambda p, r: (p[1] + 2) % 3]
     with Patched("lns"):
-        res = m.alns(0, f, d_ops, r_ops, minimize=minimize, accept=cfg["accept"], start_temp=1.0, cooling_rate=cfg.get("cooling_rate", 0.9995), segment_size=cfg.get("segment", 1), max_iter=cfg["max_iter"], seed=1, **stopper(cfg.get("stop")))
+        res = m.alns(cfg.get("start", 0), f, d_ops, r_ops, minimize=minimize, accept=cfg["accept"], start_temp=1.0, cooling_rate=cfg.get("cooling_rate", 0.9995), segment_size=cfg.get("segment", 1), max_iter=cfg["max_iter"], seed=1, **stopper(cfg.get("stop")))
     return res, f, None
 
 
@@ -201,10 +201,11 @@ def d_bfgs(minimize, neg, cfg):
 
 
 DRIVERS = {
-    "anneal": (d_anneal, [dict(cooling=c, max_iter=3, stop=s) for c in ("exp", "lin", "log") for s in (0, 1, 2)], None),
-    "tabu_search": (d_tabu, [dict(moves=mv, cooldown=cd, max_iter=3, stop=s) for mv in (2, 3) for cd in (1, 2) for s in (0, 1, 2)], None),
-    "lns": (d_lns, [dict(accept=a, max_iter=3 if a != "simulated_annealing" else 2, stop=s) for a in ("improving", "accept_all", "simulated_annealing") for s in (0, 1, 2)] + [dict(accept="simulated_annealing", cooling_rate=1e-6, max_iter=3, stop=0)], None),  # last: temperature frozen (< 1e-10) from the third iteration on
-    "alns": (d_alns, [dict(accept="improving", max_iter=2, segment=sg, stop=s) for sg in (1, 2) for s in (0, 1)] + [dict(accept="simulated_annealing", max_iter=2, segment=1, stop=0, max_dev=3), dict(accept="accept_all", max_iter=3, segment=2, stop=0, max_dev=3), dict(accept="accept_all", max_iter=3, segment=2, stop=2, max_dev=3), dict(accept="accept_all", max_iter=2, segment=1, stop=1), dict(accept="simulated_annealing", max_iter=3, segment=1, stop=2, max_dev=3), dict(accept="simulated_annealing", cooling_rate=1e-6, max_iter=3, segment=1, stop=0, max_dev=3)], None),
+    # start=1: the falsy solution 0 is then a candidate the search can move to, not the point it starts from
+    "anneal": (d_anneal, [dict(cooling=c, max_iter=3, stop=s) for c in ("exp", "lin", "log") for s in (0, 1, 2)] + [dict(cooling=c, max_iter=3, stop=0, start=1) for c in ("exp", "lin")], None),
+    "tabu_search": (d_tabu, [dict(moves=mv, cooldown=cd, max_iter=3, stop=s) for mv in (2, 3) for cd in (1, 2) for s in (0, 1, 2)] + [dict(moves=mv, cooldown=cd, max_iter=3, stop=0, start=1) for mv in (2, 3) for cd in (1, 2)], None),
+    "lns": (d_lns, [dict(accept=a, max_iter=3 if a != "simulated_annealing" else 2, stop=s) for a in ("improving", "accept_all", "simulated_annealing") for s in (0, 1, 2)] + [dict(accept="simulated_annealing", cooling_rate=1e-6, max_iter=3, stop=0)] + [dict(accept=a, max_iter=2, stop=0, start=1) for a in ("improving", "accept_all")], None),  # last: temperature frozen (< 1e-10) from the third iteration on
+    "alns": (d_alns, [dict(accept="improving", max_iter=2, segment=sg, stop=s) for sg in (1, 2) for s in (0, 1)] + [dict(accept="simulated_annealing", max_iter=2, segment=1, stop=0, max_dev=3), dict(accept="accept_all", max_iter=3, segment=2, stop=0, max_dev=3), dict(accept="accept_all", max_iter=3, segment=2, stop=2, max_dev=3), dict(accept="accept_all", max_iter=2, segment=1, stop=1), dict(accept="simulated_annealing", max_iter=3, segment=1, stop=2, max_dev=3), dict(accept="simulated_annealing", cooling_rate=1e-6, max_iter=3, segment=1, stop=0, max_dev=3), dict(accept="improving", max_iter=2, segment=1, stop=0, start=1)], None),
     "evolve": (
         d_evolve,
         [dict(adaptive=ad, k=1, max_iter=1, stop=0, elite=1) for ad in (False, True)]
